@@ -206,6 +206,8 @@ def observable(op, res):
 
     def err(x):
         return "ERR" if isinstance(x, str) and x.startswith("ERR:") else x
+    if op == "json_back" and isinstance(res, list):
+        return [by_value(x) for x in res]
     if isinstance(res, list):
         return [err(x) for x in res]
     if op == "json" and isinstance(res, str) and not res.startswith("ERR:"):
